@@ -705,7 +705,7 @@ MSG_TOKEN_REPL = TOKEN_REPL + ["@", "XX", "FLAG16", "FLAG77", "IN", "NONE", "ANY
 CHARS_Q = ["\\", '"', " ", "(", ")", ";", "\n", ".", "@", "$", "0", "9", "é"]
 CHARS_T = CHARS_Q + ["-", "/", "\t", "{", ",", "=", ":", "。", "#", "a"]
 
-JUNK_LINES = ['""', '"" 300 IN A 10.0.0.1', '"', "(", ")", "\\", "@", "$", "$TTL", "$TTL 1 2", "$TTL x", "$ORIGIN",
+JUNK_LINES = ["out.other. 300 IN A 10.0.0.9", "out.other. 300 IN A 10.0.0.9 ; not ours", '""', '"" 300 IN A 10.0.0.1', '"', "(", ")", "\\", "@", "$", "$TTL", "$TTL 1 2", "$TTL x", "$ORIGIN",
               "$ORIGIN rel", "$ORIGIN example. x", "$INCLUDE", "$INCLUDE /nonexistent/verif-c04", "$GENERATE",
               "$GENERATE 1-2", "$GENERATE 1-2 a$", "$GENERATE 1-2 a$ A", "$GENERATE 2-1 a$ A 10.0.0.$",
               "$GENERATE 1-2/0 a$ A 10.0.0.$", "$GENERATE 1-2 a${0,1,q} A 10.0.0.$", "$GENERATE 1-2 a${ A 10.0.0.$",
@@ -794,6 +794,9 @@ def text_faults(text, repl, junk, chars, insert, double=False, line_repl=True):
     for j in junk:
         yield "line-ins", join(lines + [j])
     yield "no-final-newline", text.rstrip("\n")
+    for j in junk:
+        # the junk line is the last line and the input ends without a newline
+        yield "line-ins-no-final-newline", "\n".join(lines + [j])
     for i in range(n):
         lead, toks = split_line(lines[i])
         for kind, nt in token_faults(toks, repl, double):
